@@ -67,6 +67,20 @@ def roundtrip(names):
     return claim
 
 
+def basis_order(labels):
+    """the Cartesian basis column of a label does not depend on where the label stands in the list"""
+    def claim(I):
+        with I.patch_torch(cp):
+            alpha, phi, _, lam = _geom(I)
+            basis = cp.aberration_surface_cartesian_basis(alpha, phi, lam, list(labels))
+            rels = []
+            for i, lab in enumerate(labels):
+                alone = cp.aberration_surface_cartesian_basis(alpha, phi, lam, [lab])
+                rels.append(Rel(f"basis_column_independent_of_label_order[{lab}]", basis[..., i], alone[..., 0], ntol=1e-6))
+            return rels
+    return claim
+
+
 def merge_additive(names, label):
     def claim(I):
         with I.patch_torch(cp):
@@ -176,6 +190,8 @@ def cases(tier):
         out.append((f"surface_vs_basis[order{n}]", surface_vs_basis(names), "QF_NRA"))
         out.append((f"gradients[order{n}]", gradients(names), "QF_NRA"))
         out.append((f"roundtrip[order{n}]", roundtrip(names), "QF_NRA"))
+    out.append(("basis_order[C30,C10,C12_a,C12_b,C21_a]", basis_order(["C30", "C10", "C12_a", "C12_b", "C21_a"]), "QF_NRA"))
+    out.append(("basis_order[C56_b,C23_a,C10,C41_b,C34_a]", basis_order(["C56_b", "C23_a", "C10", "C41_b", "C34_a"]), "QF_NRA"))
     allnames = sum(ORDERS.values(), [])
     out.append(("surface_vs_basis[all25]", surface_vs_basis(allnames), "QF_NRA"))
     out.append(("gradients[all25]", gradients(allnames), "QF_NRA"))
